@@ -1473,7 +1473,7 @@ class var_opt_sketch<T, A>::marks_deleter {
   marks_deleter(uint32_t num, const A& allocator) : num(num), allocator(allocator) {}
   void operator() (bool* ptr) {
     if (ptr != nullptr) {
-      allocator.deallocate(ptr, 1);
+      allocator.deallocate(ptr, num);
     }
   }
   private:
